@@ -13,7 +13,7 @@ cd /verif
 rc_all=0
 mkdir -p /tmp/seed_evid_$TAG
 for P in "$@"; do
-  VERIF_REPO=$WT VERIF_EVID_DIR=/tmp/seed_evid_$TAG ./vcheck run "$P" --tier "${TIER:-quick}" > /tmp/seeded_${TAG}_$P.log 2>&1
+  VERIF_REPO=$WT VERIF_EVID_DIR=/tmp/seed_evid_$TAG ./vcheck run "$P" --tier "${TIER:-quick}" ${EXTRA:-} > /tmp/seeded_${TAG}_$P.log 2>&1
   rc=$?
   echo "== $TAG $P exit=$rc"
   grep -v "^KNOWN-FINDING" /tmp/seeded_${TAG}_$P.log | grep "VIOLATION\|HARNESS\|^   \|quick:\|thorough:" | head -${LINES_MAX:-8} | cut -c1-300
